@@ -332,6 +332,7 @@ class Checker:
             if stripped and not codec.schema_mode.startswith('none'):
                 if codec.validate(doc_a, node_a):
                     ctx.count('absent.stripped_xml_invalid(using unstripped)')
+                    ctx.extra.setdefault('absent_stripped_xml_invalid', []).append(f'{info.key}: {stripped}')
                     doc_a = etree.fromstring(text)
             text = etree.tostring(doc_a)
             node_a = codec.locate(etree.fromstring(text))
@@ -340,8 +341,9 @@ class Checker:
             fresh = gen.construct(cls)
             ca = dict(canon(a)[3])
             cfresh = dict(canon(fresh)[3])
-        except Exception:  # noqa: BLE001  (reported by check_value on the same plan)
+        except Exception as ex:  # noqa: BLE001  (reported by check_value on the same plan)
             ctx.count('absent.setup_failed')
+            ctx.extra.setdefault('absent_check_not_possible', []).append(f'{info.key}: {type(ex).__name__}: {str(ex)[:120]}')
             return
         ctx.count('absent.classes')
         for name, prop in xg.props_of(cls):
@@ -589,6 +591,19 @@ def plans_for(gen: xg.Gen, info: xg.ClassInfo, cctx, budget: int, rng):  # noqa:
                 if len(s) >= min_len and n < budget * 3:
                     yield 'string', xg.Plan(mode='min', values={m.name: s})
                     n += 1
+    # corner strings inside lists of strings (one element per list item): plain xsd:string items only
+    for m in mem:
+        if m.is_list and 'SubElementTextListProperty' in m.names and 'SubElementHandleRefListProperty' not in m.names:
+            simple = m.decl[1].type if m.decl is not None and m.decl[0] == 'elem' and isinstance(m.decl[1].type, xo.Simple) else None
+            klass = getattr(m.prop._converter._element_converter, '_klass', (str,))  # noqa: SLF001
+            if klass not in ((str,), str) or (m.decl is not None and simple is None):
+                continue
+            if simple is not None and not (simple.primitive == 'string' and not simple.enums and not simple.is_list and simple.min_len == 0):
+                continue
+            hi = m.decl[1].max if m.decl is not None and m.decl[1].max is not None else 99
+            for chunk in (['', 'a'], [' ', 'x\ty', 'ü中Ж'], ['<tag/>', '&amp;', ''], ['\U0001F600']):
+                yield 'string_list', xg.Plan(mode='min', values={m.name: chunk[:hi]})
+                n += 1
     while n < budget:
         yield 'rand', xg.Plan(mode='rand')
         n += 1
